@@ -133,7 +133,10 @@ def execute(case):
                         for x in d):
                     # one root cause whatever the position: options are
                     # applied one by one, a later one raised
-                    if any(x.startswith(('ill-typed-option',
+                    if 'arbiter is already running' in reason or \
+                            'arbiter is restarting' in reason:
+                        tag = 'set:options-applied-despite-conflict'
+                    elif any(x.startswith(('ill-typed-option',
                                          'unknown-option-key',
                                          'wrong-type:options'))
                            for x in kinds):
